@@ -764,10 +764,9 @@ func MergeRows(_ interface{},
 		}
 	}
 
-	if res.Deleted {
-		return &res
-	}
-
+	// The column values are kept under a delete marker too: a merge with a
+	// later INSERT needs their update times to give the same result
+	// whatever order the versions are merged in.
 	allKeys := make(map[string]struct{})
 	for k := range r1.ColumnValues {
 		allKeys[k] = struct{}{}
